@@ -172,7 +172,7 @@ theorem After.finish_cache (A : After c inst dom s0 st s1 g old cur m new) {s6 :
     intro n hn hgo
     exact hfresh n hn v (by rw [hgo]; exact ⟨cc1, hc1, hk⟩)
   have hinv : Inv c inst dom s6 := by
-    refine ⟨?_, ⟨cc6, hc6⟩, ?_, A.popCo (s5 := { s6 with cache := s1.cache }) P, ?_, ?_, ?_, ?_, ?_, ?_, ?_, ?_, ?_⟩
+    refine ⟨?_, ?_, A.popCo (s5 := { s6 with cache := s1.cache }) P, ?_, ?_, ?_, ?_, ?_, ?_, ?_, ?_, ?_⟩
     · have h1 := P.oracle
       have h2 := P.oracleDefault
       have h3 := P.interrupted
@@ -208,7 +208,8 @@ theorem After.finish_cache (A : After c inst dom s0 st s1 g old cur m new) {s6 :
       rw [hg6] at hn
       exact J.mono (fun j hj => hj.from0 ⟨[], by rw [hg6, List.append_nil]⟩ hflag) (A.L.i0.just i n hn hd htop)
   refine ⟨hinv, fun lb => ⟨⟨[], by rw [hg6, List.append_nil], fun n hn => by cases hn⟩, hext,
-    fun k v h => hkeep k v (A.cacheExt k v h), ?_, ?_⟩, hcorr _ (List.mem_cons_self ..)⟩
+    fun k v h => hkeep k v (A.cacheExt k v h), ?_, ?_,
+    by rw [hc6, ← A.L.cacheMode, ← A.step.cacheMode, hc1]; rfl⟩, hcorr _ (List.mem_cons_self ..)⟩
   · intro k v h
     cases h with
     | inl h => exact Or.inl (hkeep k v (A.cacheExt k v h))
@@ -230,6 +231,52 @@ theorem After.finish_cache (A : After c inst dom s0 st s1 g old cur m new) {s6 :
         | inr e =>
           obtain ⟨i, _, hn1⟩ := A.new_index e
           exact Or.inl (Or.inr ⟨i, n, hn1, hgo, hv⟩)
+    | inr h =>
+      obtain ⟨i, n, hn, h2⟩ := h
+      rw [hg6] at hn
+      exact absurd (Or.inr ⟨i, n, hn, h2⟩) (hu _)
+
+/-- caching disabled (or, generally, the cache left alone): the nodes from `dfn` on are dropped
+    (`rollback_to(dfn)`); the answer of the head is correct all the same -/
+theorem After.finish_discard (A : After c inst dom s0 st s1 g old cur m new) {s6 : St}
+    (P : Popped s0 s1 s6) (hfl : ¬ flagAt s1.stack s0.stack.length ∨ old = cur)
+    (hm : MinLe (some s0.graph.length) m) (hg6 : s6.graph = s0.graph) :
+    Inv c inst dom s6 ∧ (∀ lb, Step c inst s0 s6 lb) ∧ Corr c inst g cur := by
+  have hcorr := A.drained_corr hfl hm
+  have hext : StackExt s0.stack s6.stack := A.popExt P
+  have hflag : ∀ d, flagAt s0.stack d → flagAt s6.stack d := fun d hd => hext.flag hd
+  have hinv : Inv c inst dom s6 := by
+    refine ⟨?_, fun k v h => A.i1.cacheOK k v (P.inCache.mp h), A.popCo P, ?_, ?_, ?_, ?_, ?_, ?_, ?_, ?_, ?_⟩
+    · rw [P.oracle, P.oracleDefault, P.interrupted]; exact A.i1.quiet
+    · rw [hg6]; exact A.L.i0.nodup
+    · intro i n hn v hc
+      rw [hg6] at hn
+      exact A.i1.disj i n (A.g0 hn) v (P.inCache.mp hc)
+    · rw [hg6]; exact A.L.i0.inDom
+    · rw [hg6]; exact A.L.i0.val
+    · rw [hg6]; exact A.L.i0.approx
+    · intro i n d hn hd
+      rw [hg6] at hn
+      have := A.L.i0.stk i n d hn hd
+      exact ⟨by rw [hext.1]; exact this.1, this.2⟩
+    · rw [hg6]; exact A.L.i0.nonstk
+    · rw [hg6, hext.1]; exact A.L.i0.cnt
+    · intro i n hn hd htop
+      rw [hg6] at hn
+      exact J.mono (fun j hj => hj.from0 ⟨[], by rw [hg6, List.append_nil]⟩ hflag) (A.L.i0.just i n hn hd htop)
+  refine ⟨hinv, fun lb => ⟨⟨[], by rw [hg6, List.append_nil], fun n hn => by cases hn⟩, hext,
+    fun k v h => P.inCache.mpr (A.cacheExt k v h), ?_, ?_,
+    by rw [P.cache, A.step.cacheMode, A.L.cacheMode]⟩, hcorr _ (List.mem_cons_self ..)⟩
+  · intro k v h
+    cases h with
+    | inl h => exact Or.inl (P.inCache.mpr (A.cacheExt k v h))
+    | inr h =>
+      obtain ⟨i, n, hn, h2⟩ := h
+      exact Or.inr ⟨i, n, by rw [hg6]; exact hn, h2⟩
+  · intro k hu hd
+    apply loop_low A.L A.i1 A.step A.fact k hu
+    cases hd with
+    | inl h => exact Or.inl (Or.inl (P.inCache.mp h))
     | inr h =>
       obtain ⟨i, n, hn, h2⟩ := h
       rw [hg6] at hn
